@@ -19,6 +19,9 @@ CFG = "INIT Init\nNEXT Next\nINVARIANT Holds\nCHECK_DEADLOCK FALSE\n"
 
 def inputs_for(tier: str, seed: int):
     inputs = rb.domain_inputs(tier, seed, "RB", scale=4.0 if tier == "quick" else 2.0)
+    # the same statement under other NAMES: names from the name generator's own namespace (block-, region- and variable-shaped),
+    # names whose string order differs from the numeric one, and control-heavy graphs
+    inputs += rb.domain_inputs("quick", seed, "NLK", scale=1.0 if tier == "quick" else 3.0)
     for n in (1, 2, 3, 4, 5):
         for g in domains.closed_cfgs(n):
             inputs.append({"dom": "X", "g": [list(s) for s in g]})
@@ -123,7 +126,7 @@ def main(argv):
         "traces_validated_against_impl": len(ok) + conf["behaviours"], "evaluations": len(inputs),
         "distinct_nontrivial": len({json.dumps(s["id"], sort_keys=True) for s in nt}),
         "rule": "every closed CFG with <=5 nodes (all 89 655, the <=4-node part certified equal to ClosedCFG(N) by TLC, every graph checked against "
-                "the TLA+ domain predicate), seeded random 6-18 node closed CFGs, std-lib bytecode CFGs; each stage run separately; outcome judged by "
+                "the TLA+ domain predicate), seeded random 6-18 node closed CFGs, std-lib bytecode CFGs, closed CFGs under names from the name generator's own namespace / names whose string order is not the numeric one, control-heavy CFGs, giant CFGs; each stage run separately; outcome judged by "
                 "TLC (NeverFails, Terminates with a 30 s cap, believed only when a re-run alone on the machine exceeds 900 s, Completes); non-trivial = restructuring added >=2 blocks/regions",
         "exhaustive": True, "exhaustive_scope": "closed CFGs with <=5 nodes",
         "inputs_by_domain": bydom, "excluded_inputs": excluded,
